@@ -17,13 +17,9 @@ from checks import c08 as T
 PID = "C07"
 UNIT = "rt"
 
-PINNED = ["entry_restores_frames", "entry_restores", "history_equiv", "entry_restores_refuted_early_exit",
+PINNED = ["entry_restores_frames", "entry_restores", "history_equiv", "early_exit_restored",
           "entry_restores_refuted_builders", "value_to_string_clean", "compile_error_clean"]
 
-KNOWN_A = ("C07a a host-initiated call that fails before a frame is pushed (call_function on a failing native function or "
-           "with too few arguments; run_unary_op / run_binary_op whose operation fails) returns through an early `?` and "
-           "leaves its registers behind; after ~85 such calls the u8 register numbering wraps: later host calls read "
-           "stale arguments or panic")
 KNOWN_B = ("C07b sequence/string builders are not unwound when an error is raised between SequenceStart|StringStart and "
            "the matching finish (caught or escaped): e.g. g = || try '{throw 1}' catch e 'c' makes 'a{g()}b' evaluate to 'cb'")
 
@@ -201,9 +197,9 @@ def fixed_ops(moddir):
     op("call:koto-mutates-then-throws", call("kmutfail", [4]), [f"HCallKoto 1 {fr('kmutfail')} (Seq (NCallNative 0) Fail)"],
        call("kmutok", [4]))
     op("call:native-ok", call("oknat", ["12"]), ["HCallNative 1"], call("oknat", ["12"]))
-    op("call:native-failing", call("nf", [5]), ["HCallPre 1"], classes=["C07a"])
-    op("call:native-failing-2args", call("nf", [5, 6]), ["HCallPre 2"], classes=["C07a"])
-    op("call:arity", call("kf", []), ["HCallPre 0"], classes=["C07a"])
+    op("call:native-failing", call("nf", [5]), ["HCallPre 1"])
+    op("call:native-failing-2args", call("nf", [5, 6]), ["HCallPre 2"])
+    op("call:arity", call("kf", []), ["HCallPre 0"])
     op("call:timeout", call("spin", []), [f"HCallKoto 0 {fr('spin')} Tick"], timeout=True)
     disp = lambda n: {"op": "display", "name": n}
     op("display:list", disp("l"), ["HDisplay"], disp("l"))
@@ -211,15 +207,15 @@ def fixed_ops(moddir):
     op("display:failing-native-display", disp("badn"), ["HDisplay"])
     un = lambda w, n: {"op": "unop", "which": w, "name": n}
     op("unop:negate-number", un("negate", "num"), ["HUnopPlain"], un("negate", "num"))
-    op("unop:negate-list", un("negate", "l"), ["HUnopPre"], classes=["C07a"])
+    op("unop:negate-list", un("negate", "l"), ["HUnopPre"])
     op("unop:negate-overload-ok", un("negate", "negok"), [f"HUnopKoto {R} Nop"], un("negate", "negok"))
     op("unop:negate-overload-throws", un("negate", "negbad"), [f"HUnopKoto {R} Fail"])
-    op("unop:display-native-failing", un("display", "badn"), ["HUnopPreOv"], classes=["C07a"])
+    op("unop:display-native-failing", un("display", "badn"), ["HUnopPreOv"])
     op("unop:display-koto-throws", un("display", "bad"), [f"HUnopKoto {R} Fail"])
     bi = lambda w, a, b: {"op": "binop", "which": w, "lhs": a, "rhs": b}
     op("binop:add-ok", bi("add", 1, 2), ["HBinopPlain"], bi("add", 1, 2))
-    op("binop:add-type-error", bi("add", 1, "x"), ["HBinopPre"], classes=["C07a"])
-    op("binop:less-type-error", bi("less", 1, "x"), ["HBinopPre"], classes=["C07a"])
+    op("binop:add-type-error", bi("add", 1, "x"), ["HBinopPre"])
+    op("binop:less-type-error", bi("less", 1, "x"), ["HBinopPre"])
     run = lambda s, **kw: dict({"op": "run", "src": s}, **kw)
     op("run:compile-error", run("x = ("), ["HCompileError"])
     op("run:type-check", run("export a1 = 1\nlet x: String = 1\nexport a2 = 2\n"), [f"HRun {R} Fail"], run("export a1 = 1\n"))
@@ -453,10 +449,8 @@ def run(tier, seed):
                 mstate = mv[p["model"]]
             model_panics = mv is not None and (p["model"] >= len(mv) or (mstate is not None and mstate[0] == 3))
             if "panic" in s:
-                if model_panics and "C07a" in seen_classes:
-                    chk.known(KNOWN_A)
-                elif mv is not None and not model_panics:
-                    d_fail.append((hi, si, [f"panicked: {s['panic']} at {s.get('at')}"]))
+                # a panic of the runtime is never excused (the register-overflow panics of the former C07a are fixed)
+                d_fail.append((hi, si, [f"panicked: {s['panic']} at {s.get('at')}"]))
                 break
             if model_panics:
                 disagreements.append((hi, si, f"model predicts a panic, the implementation returned {s['r']}"))
@@ -473,18 +467,10 @@ def run(tier, seed):
                     disagreements.append((hi, si, f"sizes: implementation {sz}, model {msz}"))
             # D1: sizes all zero after every completed host call
             if any(sz):
-                explained = []
-                if sz[0] or sz[4]:
-                    explained.append("C07a" in seen_classes)
-                if sz[1]:
-                    explained.append(False)
-                if sz[2] or sz[3]:
-                    explained.append("C07b" in seen_classes)
-                if all(explained) and (mstate is None or mstate[1][:5] == sz):
-                    if sz[0] or sz[4]:
-                        chk.known(KNOWN_A)
-                    if sz[2] or sz[3]:
-                        chk.known(KNOWN_B)
+                # only leftover builders after an error inside a string / sequence under construction are a known class
+                explained = not (sz[0] or sz[1] or sz[4]) and "C07b" in seen_classes
+                if explained and (mstate is None or mstate[1][:5] == sz):
+                    chk.known(KNOWN_B)
                 else:
                     fails.append(f"stack sizes after the call are {sz} (registers, call stack, sequence builders, "
                                  f"string builders, register base), not all zero")
@@ -500,12 +486,7 @@ def run(tier, seed):
                         diffs.append(f"result {s['r']} / output {s['out']!r}, fresh instance: {r['r']} / {r['out']!r}")
                     if s["ex"] != r["ex"]:
                         diffs.append(f"exports differ from the fresh instance's: {s['ex']} vs {r['ex']}")
-                    if diffs:
-                        # leaked registers past the u8 range make later host calls read stale registers
-                        if "C07a" in seen_classes and mstate is not None and max(m[1][0] for m in mv[:p["model"] + 1]) >= 200:
-                            chk.known(KNOWN_A)
-                        else:
-                            fails += diffs
+                    fails += diffs
             elif p["ref"] is None and p["kind"] == "op":
                 # a failing operation without effects: the exports must be those before it
                 prev = ms[si - 1]
